@@ -129,6 +129,8 @@ fn autogenerate_for_non_idents(sig: &mut syn::Signature) {
             },
         })
         .collect();
+    #[cfg(entrait_verif)]
+    crate::verif::point("fn_params::autogenerate", taken_idents.len());
 
     fn generate_ident(index: usize, attempts: usize, taken_idents: &mut HashSet<String>) -> String {
         let ident = format!(
